@@ -405,9 +405,17 @@ func confirm(cfg Config, prop, tier string, seed uint64, tmp string, v core.Viol
 	if code != 0 {
 		trouble = fmt.Sprintf("shrink failed (%d): %s", code, tailOf(string(se), 4000))
 	} else {
-		so, se, code := cfg.run(prop, nil, "replay", "--known", cfg.known(), out)
-		if code == 0 {
-			return out, 0
+		// (a few attempts: the code under test may itself be nondeterministic — ranging over a map,
+		// say — and then a trace reproduces only when the code happens to take the same turn)
+		var so, se []byte
+		for attempt := 0; attempt < 4; attempt++ {
+			so, se, code = cfg.run(prop, nil, "replay", "--known", cfg.known(), out)
+			if code == 0 {
+				if attempt > 0 {
+					fmt.Printf("note: the replay reproduced on attempt %d: the code under test does not behave the same way on every execution of one trace\n", attempt+1)
+				}
+				return out, 0
+			}
 		}
 		trouble = fmt.Sprintf("the minimised violation did not replay in a fresh process (%d): %s %s", code, so, tailOf(string(se), 4000))
 	}
@@ -433,12 +441,19 @@ func confirm(cfg Config, prop, tier string, seed uint64, tmp string, v core.Viol
 		for _, i := range pred[len(pred)-k:] {
 			ws = append(ws, strconv.Itoa(i))
 		}
-		_, _, code := cfg.run(prop, nil, "context", "--prop", prop, "--tier", tier, "--seed", strconv.FormatUint(seed, 10),
-			"--in", in, "--out", out, "--known", cfg.known(), "--warmup", strings.Join(ws, ","))
+		code := 3
+		for attempt := 0; attempt < 3 && code != 0; attempt++ {
+			_, _, code = cfg.run(prop, nil, "context", "--prop", prop, "--tier", tier, "--seed", strconv.FormatUint(seed, 10),
+				"--in", in, "--out", out, "--known", cfg.known(), "--warmup", strings.Join(ws, ","))
+		}
 		if code != 0 {
 			continue
 		}
-		if _, _, rc := cfg.run(prop, nil, "replay", "--known", cfg.known(), out); rc == 0 {
+		rc := 3
+		for attempt := 0; attempt < 4 && rc != 0; attempt++ {
+			_, _, rc = cfg.run(prop, nil, "replay", "--known", cfg.known(), out)
+		}
+		if rc == 0 {
 			if k == 0 {
 				fmt.Printf("note: reported unminimised: the code under test keeps state across executions in one process, which misled the shrinker\n")
 			} else {
@@ -483,7 +498,11 @@ func Replay(cfg Config, path string, verbose bool) int {
 	if verbose {
 		args = append(args, "-v")
 	}
-	so, se, code := cfg.run(rf.Property, nil, append(args, path)...)
+	var so, se []byte
+	code := 3
+	for attempt := 0; attempt < 4 && code == 3; attempt++ {
+		so, se, code = cfg.run(rf.Property, nil, append(args, path)...)
+	}
 	os.Stdout.Write(so)
 	os.Stderr.Write(se)
 	if code == 0 {
